@@ -80,6 +80,7 @@ class Ctx:
     def _reset(self):
         self.E.apps = []
         self.E.linked = set()
+        self.E.symviews = {}
         self.E.views = {}
         self.E.monitor = []
         self.E.pins = dict(self.cfg.get("pins", {}))
@@ -237,6 +238,17 @@ class Ctx:
         """A feasible path inside the precondition ended in an exception: candidate violation of 'the read returns'."""
         name = type(ex).__name__
         self.res["exceptions"][name] = self.res["exceptions"].get(name, 0) + 1
+        # an exception thrown by the harness itself (not by the code under test or its stand-ins) is never a verdict
+        tb, last = ex.__traceback__, None
+        while tb:
+            last = tb.tb_frame.f_code.co_filename
+            tb = tb.tb_next
+        if isinstance(ex, replay.Unrealisable) or (last and "/verif/harness/" in last and _where(ex) == "?"):
+            import traceback as _tb
+
+            self.res["errors"].append(f"harness crashed inside the check: {name}: {ex} "
+                                      f"{''.join(_tb.format_tb(ex.__traceback__)[-2:])[-400:]}")
+            return
         if getattr(self, "raises_ok", None) is not None:
             return self.raises_ok(ex)
         if self.scenario is None:
